@@ -5,6 +5,7 @@ tables of the eight scalars and the four forms of `replaceArgVars` (list arm, sy
 import Ggql.Props.C04Args
 import Ggql.Props.C05Inst
 import Ggql.Gen.Dispatch
+import Ggql.Props.C11
 namespace Ggql.Args
 open Ggql.Coerce
 
@@ -57,5 +58,22 @@ example :
       [⟨"v", .scalar .int, none⟩] [("v", .go (.int .i64 7))]
       [⟨"x", .nonNull (.input "In")⟩, ⟨"y", .scalar .boolean⟩]
       [("x", .obj [("a", .var "v"), ("l", .list [.go (.str "s")])])]).called = true := by decide
+
+end Ggql.Args
+
+namespace Ggql.Args
+open Ggql.Coerce
+
+/-- **C11_current.**  On the source as it is now (`Gen.argsInPlace = false`: `replaceArgVars`, `Input.CoerceIn` and
+`List.CoerceIn` build new maps and lists): an executable parsed once and resolved any number of times, with any
+variable maps, hands each call exactly what a fresh parse of the same text would — the parsed request is not
+changed by being resolved. -/
+theorem C11_current {F : Type} (ext : Ext F) (inputs : List (InputDef F))
+    (vdefs : List (VarDef F)) (decl : List ArgDef) (given : List (String × Val F)) (calls : List (List (String × Val F))) :
+    formArgsSeq Gen.argsInPlace genCfg ext inTable inputs decl vdefs given calls =
+      calls.map (fun supplied => formArgs genCfg ext inTable inputs vdefs supplied decl given) := by
+  have h : Gen.argsInPlace = false := by decide
+  rw [h]
+  exact C11_full genCfg ext inTable inputs vdefs decl given calls
 
 end Ggql.Args
